@@ -1,7 +1,7 @@
 /-
-  Model/Tables.lean — REGENERATED from /repo/internal/analysis/{check.go,diagnostic_kind.go} by
+  Model/Tables.lean — REGENERATED from /repo/internal/analysis/{check.go,diagnostic_kind.go} and /repo/internal/cmd by
   /verif/extract on every run of bin/check (do not edit): builtin signatures, allowed types,
-  diagnostic severities.
+  diagnostic severities, CLI exit sites.
 -/
 namespace NS
 
@@ -44,6 +44,14 @@ def severityTable : List (String × Nat) := [
   ("UnboundedAccountIsNotLast", 2),
   ("UnknownFunction", 1),
   ("UnusedVar", 2)
+]
+
+/-- os.Exit sites of internal/cmd: (function, nearest enclosing if-condition, argument), as source text -/
+def cliExitTable : List (String × String × String) := [
+  ("check", "errorsCount != 0", "errorsCount"),
+  ("run", "len(parseResult.Errors) != 0", "1"),
+  ("run", "err != nil", "1"),
+  ("Execute", "err != nil", "1")
 ]
 
 def builtinDocs (name : String) : String :=
